@@ -48,6 +48,9 @@ func verifBytesStr(maxLen int) string
 func verifFmtOK(format, s string) bool
 func verifKnownFmt(format string) bool
 func verifMatches(pattern, s string) bool
+func verifRuneCount(s string) int64
+func verifFoldEq(a, b string) bool
+func verifChecking(property string) bool
 func verifSameSet(a, b []string) bool
 func verifSubset(a, b []string) bool
 func verifStrEq(a, b string) bool
